@@ -45,7 +45,10 @@ class ConnectResponse(KNXIPBodyResponse):
         if len(raw) < 2:
             raise CouldNotParseKNXIP("ConnectResponse has wrong length")
         self.communication_channel = raw[0]
-        self.status_code = ErrorCode(raw[1])
+        try:
+            self.status_code = ErrorCode(raw[1])
+        except ValueError as err:
+            raise CouldNotParseKNXIP(f"unsupported status code: {raw[1]:#x}") from err
         pos = 2
 
         if self.status_code == ErrorCode.E_NO_ERROR:
@@ -111,7 +114,12 @@ class ConnectResponseData:
             raise CouldNotParseKNXIP("CRD has wrong length")
         if crd_length < ConnectResponseData.CRD_LENGTH:
             raise CouldNotParseKNXIP("CRD length too small")
-        self.request_type = ConnectRequestType(raw[1])
+        try:
+            self.request_type = ConnectRequestType(raw[1])
+        except ValueError as err:
+            raise CouldNotParseKNXIP(
+                f"unsupported connection type: {raw[1]:#x}"
+            ) from err
         if self._is_tunnel_crd():
             if crd_length != ConnectResponseData.CRD_TUNNEL_LENGTH:
                 raise CouldNotParseKNXIP("CRD has wrong length")
